@@ -295,6 +295,7 @@ def op_lint_paths(
     plan: Optional[list] = None,
     task_exc: Optional[list] = None,
     linter_handle: Optional[str] = None,
+    export_shadow: bool = False,
 ) -> dict:
     install_monitors(node)
     _mon_reset()
@@ -348,6 +349,16 @@ def op_lint_paths(
             restore()
         node.disk.plan = []
     out["mon"] = _mon_take()
+    if export_shadow:
+        # durability state of the simulated disk at the end of the run / at the crash point
+        out["shadow"] = shadow_export(node)
+        d = node.disk
+        was = d.enabled
+        d.enabled = False
+        try:
+            out["shadow"]["volatile"] = _volatile_by_ino(node)
+        finally:
+            d.enabled = was
     return out
 
 
